@@ -21,14 +21,17 @@ META = {
             "mload copies with the overlap guard) preserve memory; each assembly peephole pass preserves halting behaviour on "
             "a labelled-program semantics; the unique_symbol bookkeeping (the optimiser never loses, duplicates or invents "
             "a marker a binop rewrite must keep); the compile_ir lowering pushes the value of pure expressions and keeps "
-            "its stack-height bookkeeping exact on every path through if / repeat / break / continue; the return-sequence rewrite is the calling convention it is assumed to be in the frames the front end builds; optimize never raises the symbol panics on front-end-shaped trees; for the non-loop statement fragment the emitted assembly realises the IR meaning on a pc machine with a store, and this composes with optimiser soundness (opt_then_lower_sound). Models are tied to the source by exact output equality (complete boundary grid, "
+            "its stack-height bookkeeping exact on every path through if / repeat / break / continue; the return-sequence rewrite is the calling convention it is assumed to be in the frames the front end builds; optimize never raises the symbol panics on front-end-shaped trees; for the non-loop statement fragment the emitted assembly realises the IR meaning on a pc machine with a store, and this composes with optimiser soundness (opt_then_lower_sound); `with` / `set` (and repeat / break / continue) have a fixed environment-binding meaning (SemW.evalW) that is proved to coincide with the optimiser theorems' `eval` on every binder-free tree, and the lowering is proved value-level sound against it for the statement fragment including with / set (variables on the stack: DUPn reads, SWAPn POP writes, POP / SWAP1 POP leaves the scope), also for whole emitted programs; evalW is executed against compile_ir + pyrevm on seeded programs over with / set / repeat / break / continue. Models are tied to the source by exact output equality (complete boundary grid, "
             "seeded random trees, generated and compiler-emitted assemblies) and by executing the same IR / assembly / "
             "contracts with and without the optimisers on an EVM.",
     "level_note": "Trusted: Coq kernel + vm_compute, py2coq translator, Word256.v (tied to pyrevm by C14's wordtie), hand models "
                   "tied by exact-output differential (exhaustive on the grid, sampled beyond). Memory model without gas: "
                   "merges over negative literal offsets are declined (no claim). Per-pass hypotheses on uninterpreted "
                   "instructions (0/1 results of CALL-like ops, label names not inspected) and unique labels. optimize_assembly as a whole is "
-                  "proved under the conjunction of these hypotheses (shown satisfiable).",
+                  "proved under the conjunction of these hypotheses (shown satisfiable). "
+                  "The optimiser theorems are stated for `eval` (with/set uninterpreted), not for evalW: optimiser-then-lowering "
+                  "composition is proved only for trees whose optimised form is binder-free; loops have a tied meaning but no "
+                  "value-level lowering proof.",
     "technique": "Coq proof over py2coq-translated source and hand models + exact-output differential + EVM differential",
 }
 
@@ -854,7 +857,7 @@ GEN_FILES = ["C15/GenUtils.v", "C15/Optimizer.v", "C15/OptTree.v", "C15/FoldSoun
 
 # session-3 extension: SemW.evalW (with / set / repeat with a fixed binding meaning), conservativity, lowering soundness
 # with with/set.  They import Lower.v / StmtSound.v and so depend on the regenerated GenUtils.v.
-W_FILES = ["C15/SemW.v", "C15/WInst.v", "C15/SemWSound.v", "C15/StmtSoundW.v", "C15/PropsLowerW.v"]
+W_FILES = ["C15/SemW.v", "C15/WInst.v", "C15/SemWSound.v", "C15/StmtSoundW.v", "C15/StmtLabelsW.v", "C15/PropsLowerW.v"]
 
 
 def _build_w(ctx):
